@@ -1,0 +1,11 @@
+//go:build verif
+
+package wtxmgr
+
+import "github.com/lightningnetwork/lnd/clock"
+
+// VerifSetClock replaces the store's clock. It only exists in builds with the
+// verif tag and lets a conformance harness test lease expiry at exact instants.
+func (s *Store) VerifSetClock(c clock.Clock) {
+	s.clock = c
+}
